@@ -207,6 +207,20 @@ class Ctx:
         return out
 
 
+def _raised_in_harness(e: BaseException) -> bool:
+    """True when the innermost frame of the traceback is harness/engine code (a bug of ours, never a finding)."""
+    tb = e.__traceback__
+    last = None
+    while tb is not None:
+        last = tb
+        tb = tb.tb_next
+    if last is None:
+        return False
+    fn = last.tb_frame.f_code.co_filename
+    here = __file__.rsplit("/symlite/", 1)[0]
+    return fn.startswith(here + "/")
+
+
 def concrete_replay(harness: Callable[[Ctx], Any], model: dict, declared_exceptions: tuple = ()) -> Optional[str]:
     """Re-run a harness natively with every fresh_int/fresh_bool replaced by the plain Python value from `model`
     (no proxy objects reach the real code). Returns a description iff the property fails on this concrete input."""
@@ -222,6 +236,8 @@ def concrete_replay(harness: Callable[[Ctx], Any], model: dict, declared_excepti
     except EngineUnsupported:
         raise
     except Exception as e:
+        if _raised_in_harness(e):
+            raise
         return f"real code raises {type(e).__name__}: {e}"
     ok = getattr(ok, "e", ok)
     if isinstance(ok, bool):
@@ -287,6 +303,11 @@ def explore(
             except declared_exceptions:
                 ok = True
             except Exception as e:  # undeclared exception escaping real code: violation on this path
+                if _raised_in_harness(e):
+                    _acc(stats, ctx)
+                    return Result("ERROR", stats, error=f"exception raised by harness/engine code, not by the code under "
+                                  f"test: {type(e).__name__}: {e}\n{traceback.format_exc(limit=6)}",
+                                  samples=samples, witnesses=witnesses)
                 r = ctx.check()
                 if r == z3.sat:
                     m = ctx.small_model(z3.BoolVal(True))
